@@ -6,34 +6,65 @@ CONFIG = {
                 "continuation (snapshots incl. failed and retried ones, compactions, crashes inside/after the delete, restarts) equal the last-write-wins spec over the "
                 "effective history (mutex_makes_histories_clean + delete_permanent; the shape the mutex excludes is refuted by a checked witness, which is why the mutex is "
                 "needed); the listing rebuilt by recovery lists a series iff a key of it is left in a file index or the cache. The model is diffed against a real tsdb.Store "
-                "after every operation of generated histories (reads and listings); deletes issued from a second goroutine inside an in-flight snapshot must be held back.",
-        "note": "Trusts Coq kernel, harness and canonicaliser; series selection by tag predicate is the index's job (C14): the model takes the selected series keys; "
-                "TSM/tombstone byte formats, TSI, series file, fields.idx are not modelled. Known finding: series listed after piecewise deletes.",
+                "after every operation of generated histories (reads and listings); deletes issued from a second goroutine inside an in-flight snapshot must be held back. "
+                "Delete guards and epochs (tsdb/guard.go, tsdb/epoch_tracker.go, the protocol of Store.WriteToShard/DeleteSeries/DeleteMeasurement; C10/Guard.v, C10/Epoch.v): "
+                "guard_sound — for every condition of the AST (any nesting), every regex oracle, names, bounds and well-formed point, a point Store.DeleteSeries selects "
+                "(measurement among the names, min <= t <= max inclusive, series yielded by the index without filter expression; a missing tag reads as the empty value) "
+                "is matched by the guard the delete installs (repaired rule; the pinned rule is refuted by checked witnesses and the repair only widens it); "
+                "guard_time_inclusive; the reduce/short-circuit rules of newExprGuard keep the meaning of AND/OR; epoch_mutual_exclusion — for any number of writers and deleters and "
+                "EVERY schedule no deleter is in its critical section together with a writer its guard matches; epoch_wait_counts — pending IS the number of earlier writes in flight, "
+                "Wait returns exactly when it is 0; epoch_no_deadlock. Tied to the code: the real guard.Matches on generated conditions/points/batches, a real Store.DeleteSeries "
+                "(inmem and tsi1) whose removed points must equal the model's selection and be matched by the real guard, and schedules driven against the real epochTracker "
+                "with the state compared after every call.",
+        "note": "Trusts Coq kernel, harness and canonicaliser; in the engine histories series selection by tag predicate is the index's job (C14): the model takes the selected series keys; "
+                "for the guards the selection semantics (gselects) is modelled after IndexSet.seriesByExprIterator and checked against real deletes; sync.Mutex/sync.Cond and the Go scheduler are trusted "
+                "(threads are modelled as interleavings of the tracker calls); TSM/tombstone byte formats, TSI, series file, fields.idx are not modelled. Known finding: series listed after piecewise deletes.",
         "technique": "Coq proof (step-semantics theorem + invariant over arbitrary step lists) + differential correspondence on a real tsdb.Store with a pause hook inside WriteSnapshot",
     },
     "harness": "h_c10",
     "level": "proof",
     "n": {"quick": 110, "thorough": 2500},
     "shard": 24,
-    "extra_proof_files": [],
+    "extra_proof_files": ["Mu", "GuardProofs", "EpochInv", "EpochInvD", "EpochProofs"],
     "harness_timeout": {"quick": 900, "thorough": 7200},
     "rule": "designed histories first (deletes over cache / one file / several files with every continuation; a delete spanning all points; two single-instant deletes; "
             "last series of a measurement; drop measurement; whole-database and whole-measurement deletes with open-ended ranges; the in-flight-snapshot delete), then seeded "
             "histories of 5-13 operations on 2 measurements x 3 series x 4 fields (write 42%, range delete 20% in three selection forms and five range forms, drop measurement 4%, "
             "snapshot 11%, failed snapshot (retained by the cache) 3%, compaction 8%, crash-restart 12%); one history in four issues a delete from a second goroutine inside an in-flight snapshot (verifPoint hook 'snapshot.written') and records whether it was held back until the snapshot was committed. After EVERY operation: "
             "full-range ascending read of every key ever written (Shard.CreateIterator) and the listed series (Store.MeasurementNames/TagKeys/TagValues). Each run yields two cases: "
-            "kind hist (reads vs last-write-wins spec) and kind list (listed iff points remain). distinct = distinct history; non-trivial = values read back and >1 observation",
+            "kind hist (reads vs last-write-wins spec) and kind list (listed iff points remain). distinct = distinct history; non-trivial = values read back and >1 observation. "
+            "Guards/epochs (harness guard.go), designed cases first (every condition shape on points with and without the tag at min-1, min, max, max+1; all bound forms; real deletes on both "
+            "index types; blocking schedules), then per n: 3n kind guard (conditions generated as influxql text, depth <= 3 of AND/OR/parentheses over tag = / != 'v' (15% empty value), "
+            "'v' = tag, =~ / !~ with 9 regexes of which 4 match the empty string, _name forms, tag1 = / != tag2, boolean literals, key that no point has, ::tag; 12% forms the guard answers "
+            "with match-everything (other operators, numbers, nested math, ::field, time, bare references); names none/one/two/absent; bounds whole-int64 / half-open / instant / "
+            "MinNanoTime..MaxNanoTime / range / inverted; 4-9 points on 3 measurements x 3 optional tags at the boundary times, some with a repeated key or an empty value; "
+            "guard.Matches asked per point, on 4 batches and on the nil guard), n/2 kind guarddel (same conditions with 4% refused forms, FROM none / one / with an absent measurement, "
+            "6-11 series x every boundary time written to a real Store alternating inmem / tsi1, one real Store.DeleteSeries, lost points read from the engine cache, "
+            "the delete's guard rebuilt from ConditionExpr as store.go does), 2n kind epoch (1-3 deleters with generated guards, 1-4 writers with 1-3 points, 10-40 random thread "
+            "actions incl. blocked ones and guard orders, 60% followed by round-robin to completion), n kind epochraw (6-30 StartWrite/EndWrite/WaitDelete/Done calls, 15% with "
+            "generations never handed out or used twice). non-trivial: guard = some points matched and some not; guarddel = some points lost and some kept; epoch = some action blocked",
     "trusted_base": [
         "C10: the selected series keys are taken from the request (the harness selects by tag value / measurement / database; predicate evaluation by the index is C14's subject)",
         "C10: one client operation at a time, except the delete issued from a second goroutine at the verifPoint hook 'snapshot.written' (writeSnapshotAndCommit, before FileStore.Replace): held back = not finished within 150 ms and finished after WriteSnapshot returned",
         "C10: Engine.snapshotMu is modelled as the step discipline mu_ok (DeleteBegin only with no snapshot in flight or retained, SnapBegin only with no delete running); sync.Mutex itself is trusted",
         "C10: crash images are directory copies of the quiescent store; torn delete entries are exercised by C01's harness on the same model",
+        "C10 guards: the arguments of the guard a real Store.DeleteSeries installs (min, max, names, condition) are recomputed by the harness the way store.go computes them "
+        "(influxql.ConditionExpr on the statement's condition, MinTime/MaxTime defaults, sorted source names or the shard's measurement names); the guard object inside the running delete is not observed",
+        "C10 guards: regular expressions are an oracle: the model is evaluated with regexp.Regexp.Match as observed on every string of the case (tag values, names, empty string); theorems quantify over every oracle",
+        "C10 guards: an untyped key in a condition is taken to name a tag (the index asks the measurement's field set; conditions on fields make the engine refuse the delete); tag keys and field names are kept apart by the generator",
+        "C10 guards: points are well-formed (no empty tag value) — checked on every real point of a guarddel case; models.Tags.HashKey drops empty values when the key is built",
+        "C10 epochs: uint64/int64 counters are modelled without wrap-around; threads are interleavings of whole tracker calls (each call holds epochTracker.mu), waiting on sync.Cond is modelled as "
+        "'the step is not enabled'; the harness drives the real tracker from one goroutine through tsdb/verif_export_c10.go and never calls a blocking Wait — it reads pending / guard.done instead",
     ],
     "modelled": "Engine.deleteSeriesRange (tombstone per overlapping file, hot-cache range removal, WAL delete entry, index reconciliation incl. the key-presence rule of "
-                "indirectIndex.DeleteRange), WriteSnapshot/compaction/recovery as in C01 are modelled (theories/Shard/Engine.v); tag-predicate evaluation, delete guards/epochs, "
+                "indirectIndex.DeleteRange), WriteSnapshot/compaction/recovery as in C01 are modelled (theories/Shard/Engine.v); delete guards (newGuard, newExprGuard, "
+                "newBinaryExprGuard, guard.Matches, exprGuard.matches) and the delete's selection (IndexSet.seriesByExprIterator and below, at the level of one series; the engine's refusal of "
+                "filtered elements) in theories/C10/Guard.v; epochTracker (StartWrite, EndWrite, WaitDelete, epochWaiter.Done/Wait) and the writer/deleter protocol in theories/C10/Epoch.v; "
+                "Store.DeleteSeries' own argument preparation (ExpandSources, ConditionExpr), field-typed conditions beyond 'refused', "
                 "TSI, series file are not modelled; the sorted-merge loops over series keys inside deleteSeriesRange are modelled by their intended meaning (selection by series), exercised with prefix-ordered keys",
     "assumptions": ["series keys of a delete are the listed series the request selects",
-                    "compaction groups are adjacent files; level compactions do not run during a delete (as the code enforces)"],
+                    "compaction groups are adjacent files; level compactions do not run during a delete (as the code enforces)",
+                    "guards: points carry no empty tag value; untyped keys name tags; fewer than 2^64 tracker operations per shard"],
 }
 
 
